@@ -30,7 +30,7 @@ SPEC = {
     "translators": [translate_glue, build_lsp],
     "tiers": {
         "quick": {"cases": 330, "extra": {"lexreps": 4}},
-        "thorough": {"cases": 20000, "extra": {"lexreps": 99}},
+        "thorough": {"cases": 12000, "extra": {"lexreps": 99}},
     },
     # model and implementation are compared on the formatters' complete replies; what the property
     # itself says is evaluated on the implementation's output by the oracle (extra()), so a
